@@ -334,6 +334,12 @@ outer:
 
 	// No better solution than allocate at the end of the table.
 	base = a.size - min
+	for a.usedBase.Get(a.delta + base) {
+		// Bases must stay unique: the check array cannot tell two lines with the same base apart.
+		base++
+	}
+	a.taken.Grow(base + max + 1)
+	a.usedBase.Grow(a.delta + base + 1)
 	return
 }
 
